@@ -21,8 +21,14 @@ def burst_ops(rng, i, n, sleeps, kinds=("put", "get", "raw")):
         if s:
             ops.append(["sleep", s])
         kind = rng.choice(kinds)
+        if ops and ops[-1][0] in ("put", "get", "raw") and rng.random() < 0.08:
+            ops.append(list(ops[-1]))                 # the very same command again (identical text)
+            continue
         if kind == "put":
-            ops.append(["put", f"C{i}", f"F{k}", str(rng.randint(0, 99))])
+            v = str(rng.randint(0, 99))
+            if rng.random() < 0.06:
+                v = rng.choice(["a\nb", "x\ry", " padded ", "\n", "Ünï 𝄞", "a:b=c", ""])
+            ops.append(["put", f"C{i}", f"F{k}", v])
         elif kind == "get":
             ops.append(["get", f"C{i}", f"F{k}"])
         else:
@@ -44,7 +50,7 @@ def conn_traffic(rng, max_threads=4, max_cmds=40, long_idle=True, log_sizes=(0,)
     threads[0].append(["join"])
     total = sum(1 for t in threads for o in t if o[0] in ("put", "get", "raw"))
     spec = {"kind": "conn", "device": device(rng), "log_size": rng.choice(log_sizes), "threads": threads,
-            "pre_register": [1], "final_wait": round((total + 4) * 0.1 + rng.choice([0, 1, 31, 65]), 3)}
+            "pre_register": [1], "final_wait": round((total + 9) * 0.1 + rng.choice([0, 1, 31, 65]), 3)}
     threads[0].append(["sleep", spec["final_wait"]])
     threads[0].append(["snap"])
     spec["final_wait"] = 0
@@ -286,3 +292,11 @@ def subunit_init(rng, T):
             queries.append(q)
     return {"kind": "subunit", "class": c["py"], "device": dev, "expect_id": c["id"], "expect_queries": queries,
             "readable": [f["name"] for f in c["fns"] if f["get"]]}
+
+
+def conn_slow_writes(rng):
+    """C01/C08/C12 flavour judged by monitors only (write duration is not in the L4 model): some writes block inside the driver"""
+    spec = conn_traffic(rng, max_threads=2, max_cmds=12, long_idle=rng.random() < 0.5)
+    spec["slow_writes"] = {str(rng.randint(1, 12)): rng.choice([0.05, 0.12, 0.25, 0.6]) for _ in range(rng.randint(1, 3))}
+    spec["threads"][0].insert(-1, ["sleep", 2.0])        # room for the blocked time before the final snapshot
+    return spec
